@@ -41,6 +41,49 @@ def secure_impls():
     return sorted(impls)
 
 
+def impl_blocks(src):
+    """(header, body) of every `impl` item in a source text (brace matching; comments already stripped)"""
+    out = []
+    for m in re.finditer(r"\bimpl\b", src):
+        i = src.find("{", m.end())
+        semi = src.find(";", m.end())
+        if i < 0 or (0 <= semi < i):
+            continue
+        header = norm(src[m.start():i])
+        depth, j = 0, i
+        while j < len(src):
+            if src[j] == "{":
+                depth += 1
+            elif src[j] == "}":
+                depth -= 1
+                if depth == 0:
+                    break
+            j += 1
+        out.append((header, src[i + 1:j]))
+    return out
+
+
+def chacha_seeders():
+    """every fn inside an `impl` item for a ChaCha type that takes another generator (a parameter mentioning `Random<` or a type parameter
+    bounded by `Rng`): (file, impl header, fn name, fn generics, fn args, fn where-clause).  These are the ways to seed a ChaCha from a generator."""
+    found = []
+    for root, _, files in os.walk(os.path.join(REPO, "src")):
+        for f in sorted(files):
+            if not f.endswith(".rs"):
+                continue
+            rel = os.path.relpath(os.path.join(root, f), REPO)
+            src = strip_comments(open(os.path.join(root, f)).read())
+            for header, body in impl_blocks(src):
+                if not re.search(r"\bChaCha\b", header) or re.search(r"\bfor\s+(?!ChaCha\b)\w", header) and not re.search(r"\bfor\s+ChaCha\b", header):
+                    continue
+                for m in re.finditer(r"\bfn\s+(\w+)\s*(<[^({]*>)?\s*\(([^)]*)\)\s*(?:->\s*([^{;]*?))?\s*(?:where\s+([^{;]+?))?\s*[{;]", body):
+                    name, gen, args, ret, where = m.group(1), norm(m.group(2) or ""), norm(m.group(3)), norm(m.group(4) or ""), norm(m.group(5) or "")
+                    takes_gen = "Random<" in args or re.search(r"\bRng\b", gen + " " + where) is not None
+                    if takes_gen and "self" not in args.split(",")[0]:
+                        found.append((rel, header, name, gen, args, where))
+    return sorted(found)
+
+
 def traits():
     impls = []
     marker_decl = None
@@ -85,6 +128,9 @@ def traits():
               "def fromRngGenerics : String := %s" % lean_str(from_rng_generics),
               "def fromRngArgs : String := %s" % lean_str(from_rng_args),
               "def fromRngWhere : String := %s" % lean_str(from_rng_where), "",
+              "/-- every associated fn of a ChaCha type that takes another generator: (file, impl header, fn, generics, args, where-clause) -/",
+              "def chachaSeeders : List (String × String × String × String × String × String) :=",
+              "  [" + ",\n   ".join("(%s)" % ", ".join(lean_str(x) for x in t) for t in chacha_seeders()) + "]", "",
               "/-- declared return types of `urandom::new`, `urandom::seeded`, `urandom::csprng` -/",
               "def libReturns : List (String × String) :=",
               "  [" + ", ".join("(%s, %s)" % (lean_str(a), lean_str(b)) for a, b in rets) + "]", "",
